@@ -656,3 +656,77 @@ def c05_taproot(tier='quick', seed=0):
             'bounded': {'what': 'taproot root identity against an independent Ed25519; builder witnesses unlock; native vs '
                                 'non-native verdicts for key-spend, script-spend, junk and wrong-script witnesses',
                         'bound': f'{n} (key, script) pairs'}}
+
+
+# ------------------------------------------------------------------------------------------ C13
+def c13_builders(tier='quick', seed=0):
+    """bounded stand-in for the builder-side clauses of C13 (the lock side is proved by the lemmas): the
+    witness each builder produces unlocks the lock of its sibling builder, for random keys, sigfields and
+    permitted flags; a witness by another key, over other sigfields, with a non-permitted flag, for another
+    committed / surrogate script, or with a surrogate signed by another key is rejected."""
+    from nacl.signing import SigningKey
+    from tapescript import tools
+    import tapescript.functions as F
+    rnd = random.Random(seed)
+    bad = None
+    n = 0
+
+    def expect(name, want, scripts, sf, info):
+        nonlocal bad, n
+        n += 1
+        try:
+            got = F.run_auth_scripts([bytes(s) for s in scripts], dict(sf))
+        except BaseException as ex:  # noqa: BLE001
+            got = f'raised {type(ex).__name__}'
+        if got is not want and bad is None:
+            bad = dict(info, case=name, verdict=repr(got), expected=want,
+                       scripts=[bytes(s).hex()[:200] for s in scripts], sigfields={k: v.hex() for k, v in sf.items()})
+    for _ in range(6 if tier == 'quick' else 300):
+        s1, s2 = rnd.randbytes(32), rnd.randbytes(32)
+        p1, p2 = bytes(SigningKey(s1).verify_key), bytes(SigningKey(s2).verify_key)
+        sf = {f'sigfield{i}': rnd.randbytes(rnd.randrange(1, 20)) for i in rnd.sample(range(1, 9), rnd.randrange(1, 5))}
+        sf2 = dict(sf)
+        k0 = sorted(sf)[0]
+        sf2[k0] = sf2[k0] + b'!'
+        low = int(k0[-1]) - 1
+        # a permitted flag that does not exclude the field changed in sf2 (else both messages coincide)
+        fl = rnd.choice([f for f in (0, 1, 2, 4, 8, 0x80) if not (f >> low) & 1])
+        fx = f'{fl:02x}'
+        other = f'{(fl ^ 0x40) | 0x40:02x}'         # a flag bit the lock does not permit
+        info = {'flags': fx}
+        for lname, lock, wit in (
+            ('single_sig', tools.make_single_sig_lock(p1, fx), tools.make_single_sig_witness),
+            ('single_sig2', tools.make_single_sig_lock2(p1, fx), tools.make_single_sig_witness2),
+            ('graftroot_key', tools.make_graftroot_lock(p1, fx), tools.make_graftroot_witness_keyspend),
+            ('graftap_key', tools.make_graftap_lock(p1, fx), tools.make_graftap_witness_keyspend),
+        ):
+            expect(lname + '/unlocks', True, [wit(s1, sf, fx), lock], sf, info)
+            expect(lname + '/other-key', False, [wit(s2, sf, fx), lock], sf, info)
+            expect(lname + '/other-sigfields', False, [wit(s1, sf2, fx), lock], sf, info)
+            expect(lname + '/non-permitted-flag', False, [wit(s1, sf, other), lock], sf, info)
+        # multisig 2-of-3
+        s3 = rnd.randbytes(32)
+        p3 = bytes(SigningKey(s3).verify_key)
+        ml = tools.make_multisig_lock([p1, p2, p3], 2, fx)
+        w = tools.make_single_sig_witness
+        expect('multisig/unlocks', True, [w(s1, sf, fx) + w(s3, sf, fx), ml], sf, info)
+        expect('multisig/one-signer-twice', False, [w(s1, sf, fx) + w(s1, sf, fx), ml], sf, info)
+        expect('multisig/one-signer', False, [w(s2, sf, fx), ml], sf, info)
+        # scripthash
+        sc = tools.Script.from_src(rnd.choice(('true', 'push d1 push d1 equal', 'push x' + rnd.randbytes(30).hex() + ' pop0 true')))
+        sc_other = tools.Script.from_src('true true equal')
+        hl = tools.make_scripthash_lock(sc)
+        expect('scripthash/unlocks', True, [tools.make_scripthash_witness(sc), hl], sf, info)
+        expect('scripthash/other-script', False, [tools.make_scripthash_witness(sc_other), hl], sf, info)
+        # graftroot / graftap surrogate
+        gl = tools.make_graftroot_lock(p1, fx)
+        expect('graftroot_surrogate/unlocks', True, [tools.make_graftroot_witness_surrogate(s1, sc), gl], sf, info)
+        expect('graftroot_surrogate/other-signer', False, [tools.make_graftroot_witness_surrogate(s2, sc), gl], sf, info)
+        gtl = tools.make_graftap_lock(p1, fx)
+        expect('graftap_script/unlocks', True, [tools.make_graftap_witness_scriptspend(s1, sc), gtl], sf, info)
+        expect('graftap_script/other-signer', False, [tools.make_graftap_witness_scriptspend(s2, sc), gtl], sf, info)
+    return {'obligations': [_ob('bounded/C13/builders', bad is None, bad)],
+            'bounded': {'what': 'builder witnesses unlock their sibling lock; other key / other sigfields / non-permitted '
+                                'flag / other script / surrogate by another key are rejected (single-sig both layouts, '
+                                'multisig 2-of-3, scripthash, graftroot and graftap both paths)',
+                        'bound': f'{n} runs on seeded random keys, sigfields and flags'}}
